@@ -378,6 +378,9 @@ def corr_recursions(ck, tier):
         t = rep.split()
         got = h2arr(t[3:]) if t and t[0] == "ok" else None
         tol = 1e-13 * (1 + (n / 50.0) ** 2)          # cancellation in B0 = γ1 − γ0 (n−1) grows with n in both implementations
+        if meth == "hansenlaw" and opt == 1:
+            tol *= 10                                # … and most in the first-order hold (measured: up to 1.4e-13·(1 + (n/50)²), the two
+                                                     # evaluation orders differ by rounding only; a changed constant shows at 1e-6 and above)
         if got is None or got.shape != np.shape(ref) or not np.abs(got - ref).max() <= tol * max(1.0, np.abs(ref).max()):
             ck.disagree("K.recursions", dict(method=meth, n=n, dr=dr, direction=d, option=opt, row=x.tolist()),
                         f"Lean model of {meth} differs from the implementation by "
